@@ -595,7 +595,8 @@ impl Cursor<'_> {
             }
         }
         let c = self.first();
-        if c != ';' && !is_whitespace(c) {
+        // The version number may also be the last thing in the input.
+        if c != ';' && !is_whitespace(c) && !self.is_eof() {
             return (false, false);
         }
         (true, true)
